@@ -25,3 +25,8 @@ add("C10.conditions","VH_c10_conditions",TBL,c10,{"pairs":0},{"pairs":1},expect_
 add("C10.actions","VH_c10_actions",TBL,c10,{"pairs":1},{"pairs":1},expect_reach=["end"],bounds="two modifications in sequence out of 6 kinds with symbolic operands; "+C10B)
 add("C10.siblings","VH_c10_siblings",TBL,c10,expect_reach=["end"],bounds="stored route with communities / large / extended community slices of spare capacity 0..2, two per-peer copies each adding one symbolic member")
 add("C10.aspath","VH_c10_aspath",TBL,c10,expect_reach=["end"],bounds="as-path sets of 2 members from 7 patterns (4 simple, 3 regular expressions), AS_SEQUENCE of 1..2 members from a pool of 4 ASNs, any/all/invert; Go's regexp engine runs natively on the concrete texts")
+c04=["bgp/c04.go"]
+for nm in ["attr_origin","attr_med_lp","attr_nexthop_ids","attr_aspath","attr_aggregator","attr_communities","attr_extcomm","nlri_ipv4","nlri_ipv6","nlri_labeled_vpn","update","mp","open","notification_refresh"]:
+    add("C04."+nm,"VH_c04_"+nm,BGP,c04,{"unwind":200},{"unwind":200},expect_reach=["end"],merge=UM)
+add("C04.attr_unknown","VH_c04_attr_unknown",BGP,c04,{"params":{"min":250,"max":260},"unwind":400},{"params":{"min":0,"max":300},"unwind":400},expect_reach=["end"],bounds="unknown attribute whose value has symbolic length min..max (around the 255 extended-length threshold), symbolic flags")
+add("C04.fixpoint_update","VH_c04_fixpoint_update",BGP,c04,{"n":6},{"n":8},expect_reach=["end"],merge=UM,bounds="every accepted UPDATE body of up to n bytes, ADD-PATH symbolic")
